@@ -80,6 +80,9 @@ def norm_elem(v, kind):
     return v
 
 
+_OOR = object()
+
+
 class Buf:
     _n = 0
 
@@ -372,16 +375,29 @@ class Numpy:
                 nxt = []
                 for c, sub in cur:
                     if z3.is_int_value(k):
-                        nxt.append((c, sub[k.as_long()]))
+                        if not isinstance(sub, (list, tuple)) or not (0 <= k.as_long() < len(sub)):
+                            # out-of-range read: only reachable under a condition the caller masks out
+                            nxt.append((z3.BoolVal(False), _OOR))
+                        else:
+                            nxt.append((c, sub[k.as_long()]))
+                    elif not isinstance(sub, (list, tuple)):
+                        nxt.append((z3.BoolVal(False), _OOR))
                     else:
                         for j, item in enumerate(sub):
                             nxt.append((z3.And(c, k == j), item))
                 cur = nxt
+            dflt = False if kind == "bool" else 0
+            cur = [(c, (dflt if item is _OOR else item)) for c, item in cur]
             if len(cur) == 1:
                 return cur[0][1]
+            if not cur:
+                return dflt
             acc = norm_elem(cur[-1][1], kind)
             for c, item in reversed(cur[:-1]):
-                acc = elem_ite(z3.simplify(c), norm_elem(item, kind), acc, kind)
+                c = z3.simplify(c)
+                if z3.is_false(c):
+                    continue
+                acc = elem_ite(c, norm_elem(item, kind), acc, kind)
             return acc
         return NDArr.fresh(fn, shape, kind)
 
@@ -630,7 +646,16 @@ class Numpy:
             # the unknown dimension must be integral
             if not I.ctx.branch(total % known == 0) if not (z3.is_int_value(known) and known.as_long() == 1) else False:
                 I.raise_exc(ValueError, "cannot reshape array: size not divisible")
-            shp[k] = as_dim(z3.simplify(total / known)) if not (z3.is_int_value(known) and known.as_long() == 1) else as_dim(total)
+            if z3.is_int_value(known) and known.as_long() == 1:
+                shp[k] = as_dim(total)
+            else:
+                q = z3.simplify(total / known)
+                if not z3.is_int_value(q):
+                    for cand in range(0, 9):      # small quotients are the common case (number of variants)
+                        if I.ctx.entails(total == known * cand):
+                            q = z3.IntVal(cand)
+                            break
+                shp[k] = as_dim(q)
         else:
             if not I.ctx.branch(total == known):
                 I.raise_exc(ValueError, "cannot reshape array: total size changes")
